@@ -88,7 +88,17 @@ func (o *Obligation) smallModelAsserts() string {
 }
 
 func runSolver(s solverDef, timeoutS int, file string) (status, out string, ms int64) {
-	ctx, cancel := context.WithTimeout(context.Background(), time.Duration(timeoutS+2)*time.Second)
+	return runSolverCtx(context.Background(), s, timeoutS, file)
+}
+
+func runSolverCtx(parent context.Context, s solverDef, timeoutS int, file string) (status, out string, ms int64) {
+	// one slot per solver process: portfolios never oversubscribe the machine
+	procSlots <- struct{}{}
+	defer func() { <-procSlots }()
+	if parent.Err() != nil {
+		return "unknown", "cancelled", 0
+	}
+	ctx, cancel := context.WithTimeout(parent, time.Duration(timeoutS+2)*time.Second)
 	defer cancel()
 	args := s.args(timeoutS, file)
 	cmd := exec.CommandContext(ctx, args[0], args[1:]...)
@@ -99,6 +109,9 @@ func runSolver(s solverDef, timeoutS int, file string) (status, out string, ms i
 	_ = cmd.Run()
 	ms = time.Since(t0).Milliseconds()
 	out = buf.String()
+	if parent.Err() != nil {
+		return "unknown", "cancelled", ms
+	}
 	first := ""
 	for _, l := range strings.Split(out, "\n") {
 		l = strings.TrimSpace(l)
@@ -128,11 +141,61 @@ func runSolver(s solverDef, timeoutS int, file string) (status, out string, ms i
 	return
 }
 
+// seeded: z3-new with a different random seed. SMT search on quantified queries is heavy-tailed: the same
+// query that times out with one seed is decided in a fraction of a second with another, so an undecided
+// obligation is retried as a portfolio of seeds (any `unsat` is a proof, whatever the seed).
+func seeded(seed int) solverDef {
+	return solverDef{fmt.Sprintf("z3-new#%d", seed), func(t int, f string) []string {
+		return []string{"z3-new", fmt.Sprintf("-T:%d", t), fmt.Sprintf("smt.random_seed=%d", seed), fmt.Sprintf("sat.random_seed=%d", seed), f}
+	}}
+}
+
+const portfolioSeeds = 6
+
+var procSlots = make(chan struct{}, 16)
+
+// quantified: the query contains quantifiers or recursive definitions beyond the prelude's (then E-matching
+// order matters and a seed portfolio pays off; quantifier-free bit-vector queries gain nothing from seeds).
+func quantified(text string) bool {
+	return strings.Contains(text, "(forall ") || strings.Contains(text, "(exists ")
+}
+
+// portfolio runs the given solvers concurrently; the first definite answer wins and the rest are killed.
+func portfolio(defs []solverDef, timeoutS int, file string) (status, solver, out string, ms int64, tried []string) {
+	ctx, cancel := context.WithCancel(context.Background())
+	defer cancel()
+	type ans struct {
+		name, st, out string
+		ms            int64
+	}
+	ch := make(chan ans, len(defs))
+	for _, d := range defs {
+		go func(d solverDef) {
+			st, o, m := runSolverCtx(ctx, d, timeoutS, file)
+			ch <- ans{d.name, st, o, m}
+		}(d)
+	}
+	status = "unknown"
+	for range defs {
+		a := <-ch
+		if a.out != "cancelled" {
+			tried = append(tried, fmt.Sprintf("%s:%s:%dms", a.name, a.st, a.ms))
+		}
+		if (a.st == "unsat" || a.st == "sat") && status == "unknown" {
+			status, solver, out, ms = a.st, a.name, a.out, a.ms
+			cancel()
+		} else if status == "unknown" && out == "" && a.out != "cancelled" {
+			out = a.out
+		}
+	}
+	return
+}
+
 // Solve discharges obligations in parallel. Ladder: z3-new, cvc5, z3 (first definite answer wins).
 func Solve(obls []*Obligation, dir string, timeoutS int, allSolvers bool, jobs int) []*Result {
 	res := make([]*Result, len(obls))
 	var wg sync.WaitGroup
-	sem := make(chan struct{}, jobs)
+	sem := make(chan struct{}, 4*jobs) // obligations in flight; solver processes are bounded by procSlots
 	// identical queries (e.g. the two byte-identical kbin copies) are solved once
 	texts := make([]string, len(obls))
 	first := map[string]int{}
@@ -164,6 +227,7 @@ func Solve(obls []*Obligation, dir string, timeoutS int, allSolvers bool, jobs i
 			defer wg.Done()
 			sem <- struct{}{}
 			defer func() { <-sem }()
+			_ = jobs
 			file := filepath.Join(dir, fmt.Sprintf("o%04d.smt2", i))
 			text := texts[i]
 			if err := os.WriteFile(file, []byte(text), 0o644); err != nil {
@@ -171,7 +235,44 @@ func Solve(obls []*Obligation, dir string, timeoutS int, allSolvers bool, jobs i
 				return
 			}
 			r := &Result{O: o, File: file, Status: "unknown"}
+			if !allSolvers {
+				// quick schedule: a short first attempt, then a portfolio (seeds of z3-new, cvc5, z3 4.8)
+				firstT := timeoutS
+				if firstT > 3 {
+					firstT = 3
+				}
+				st, out, ms := runSolver(solvers[0], firstT, file)
+				r.Tried = append(r.Tried, fmt.Sprintf("%s:%s:%dms", solvers[0].name, st, ms))
+				if st == "unsat" || st == "sat" {
+					r.Status, r.Solver, r.Ms, r.Output = st, solvers[0].name, ms, out
+				} else {
+					r.Output, r.Ms = out, ms
+					var defs []solverDef
+					if timeoutS > firstT {
+						defs = append(defs, solvers[0])
+					}
+					defs = append(defs, solvers[1], solvers[2])
+					if quantified(text) {
+						for k := 1; k <= portfolioSeeds; k++ {
+							defs = append(defs, seeded(k))
+						}
+					}
+					pst, psolver, pout, pms, tried := portfolio(defs, timeoutS, file)
+					r.Tried = append(r.Tried, tried...)
+					if pst == "unsat" || pst == "sat" {
+						r.Status, r.Solver, r.Ms, r.Output = pst, psolver, pms, pout
+					} else {
+						r.Ms += int64(timeoutS) * 1000
+						if st == "error" && pout != "" {
+							r.Output = pout
+						}
+					}
+				}
+			}
 			for _, s := range solvers {
+				if !allSolvers {
+					break
+				}
 				st, out, ms := runSolver(s, timeoutS, file)
 				r.Tried = append(r.Tried, fmt.Sprintf("%s:%s:%dms", s.name, st, ms))
 				r.Agree = append(r.Agree, s.name+"="+st)
@@ -190,6 +291,17 @@ func Solve(obls []*Obligation, dir string, timeoutS int, allSolvers bool, jobs i
 						r.Output = out
 						r.Ms += ms
 					}
+				}
+			}
+			if allSolvers && r.Status == "unknown" {
+				var defs []solverDef
+				for k := 1; k <= portfolioSeeds; k++ {
+					defs = append(defs, seeded(k))
+				}
+				pst, psolver, pout, pms, tried := portfolio(defs, timeoutS, file)
+				r.Tried = append(r.Tried, tried...)
+				if pst == "unsat" || pst == "sat" {
+					r.Status, r.Solver, r.Ms, r.Output = pst, psolver, pms, pout
 				}
 			}
 			if r.Status == "unknown" {
